@@ -163,7 +163,7 @@ func ZZ_C08_bigcut(a []int) {
 	f := zzRefEncode(zzGen(zzShapeOf(a[1:])))
 	L := len(f)
 	cuts := []int{0, 1, 2, 3, 4, 5, 6, 8, 12, 20, L / 2, L - 2, L - 1}
-	for _, c := range []int{127, 128, 129, 16383, 16384, 16385, 16386, 16400} {
+	for _, c := range []int{127, 128, 129, 4095, 4096, 4097, 16383, 16384, 16385, 16386, 16400, 32767, 32768, 32769, 32780, 40000, 65535, 65536, 65537, 65550} {
 		if c < L {
 			cuts = append(cuts, c)
 		}
